@@ -760,11 +760,35 @@ def execute(program, ctx, mode):
             ctx.probe('rebase-' + kind[s])
             if any(s in bases_of[x] and len(bases_of[x]) > 1 for x in L):
                 ctx.probe('rebase-under-multi-base-dependent')
+            # "prime": the last question put to each specification below s before the re-basing is a positive one about
+            # something s reaches now; the same question is the first one put to it afterwards (a remembered answer
+            # that the change failed to discard would be served exactly then, and only then)
+            primed = []
+            if 'C02' in props:
+                prng = random.Random(k)
+                old_map = dict(bases_of)
+                old_map[s] = old
+                old_reach = sorted(reach(old_map, s)) + ['Interface']
+                for x in L:
+                    if node[x] is None or not (x == s or s in reach(old_map, x)):
+                        continue
+                    t = old_reach[prng.randrange(len(old_reach))]
+                    if node.get(t) is None:
+                        continue
+                    node[x].isOrExtends(node[t])
+                    primed.append((x, t))
+                ctx.probe('primed-questions', len(primed))
             try:
                 node[s].__bases__ = tuple(node[b] for b in mb)
                 raised = False
             except ICE:
                 raised = True
+            if not raised:
+                for x, t in primed:
+                    want = (t == x) or (t in reach(bases_of, x)) or t == 'Interface'
+                    if bool(node[x].isOrExtends(node[t])) != want:
+                        ctx.violation('C02', 'isOrExtends-primed', 'C02|isOrExtends|asked-right-before-and-right-after-the-rebasing|%s' % (
+                            'false-negative' if want else 'false-positive'), {'S': x, 'T': t, 'rebased': s, 'bases': dict(bases_of)})
             ctx.log(step, 'rebase', s, mb, raised, [lab(x) for x in node[s].__sro__])
             if raised:
                 if not strict_env:
